@@ -80,7 +80,7 @@ MUTANTS += [
     dict(id="c07-bucketpos-end-of-record", props=["C07", "C02"], desc="flushBucket records the end instead of the start of a record for file choice",
          edits=[(IDX, "\t\tOffset: localPosToBucketPos(int64(length+sizePrefixSize), idx.fileNum, idx.maxFileSize),", "\t\tOffset: localPosToBucketPos(int64(length+sizePrefixSize), idx.fileNum, idx.maxFileSize) + types.Position(int64(toWrite)/64),")]),
     dict(id="c07-freelist-before-index-update", props=["C07", "C13", "C03"], desc="freelist put of the old location also on the new-key path (live location freed)",
-         edits=[(ST, "\tif !cmpKey {\n\t\tif err = s.index.Put(indexKey, fileOffset); err != nil {\n\t\t\treturn err\n\t\t}\n", "\tif !cmpKey {\n\t\tif err = s.index.Put(indexKey, fileOffset); err != nil {\n\t\t\treturn err\n\t\t}\n\t\tif found && len(value) == 7 {\n\t\t\ts.freelist.Put(prevOffset)\n\t\t}\n")]),
+         edits=[(ST, "\tif !cmpKey {\n\t\tif err = s.index.Put(indexKey, fileOffset); err != nil {\n\t\t\treturn err\n\t\t}\n", "\tif !cmpKey {\n\t\tif err = s.index.Put(indexKey, fileOffset); err != nil {\n\t\t\treturn err\n\t\t}\n\t\tif found && len(value) == 5 {\n\t\t\ts.freelist.Put(prevOffset)\n\t\t}\n")]),
     # C08
     dict(id="c08-remove-retrims", props=["C08"], desc="Remove drops the following entry's last prefix byte",
          edits=[(IDX, "\tnewData := records.PutKeys([]KeyPositionPair{}, r.Pos, r.NextPos())\n\t// NOTE: We are removing", "\tnewData := records.PutKeys([]KeyPositionPair{}, r.Pos, r.NextPos())\n\tif r.NextPos() < records.Len() {\n\t\tnx := records.ReadRecord(r.NextPos())\n\t\tif len(nx.Key) > 2 {\n\t\t\tnewData = records.PutKeys([]KeyPositionPair{{nx.Key[:len(nx.Key)-1], nx.Block}}, r.Pos, nx.NextPos())\n\t\t}\n\t}\n\t// NOTE: We are removing")]),
